@@ -37,7 +37,9 @@ def cell_any(draw, oriented="lammps"):
     a, b, c = [draw(st.floats(4.0, 15.0)) for _ in range(3)]
     if k == "ortho":
         return [[a, 0, 0], [0, b, 0], [0, 0, c]]
-    xy, xz, yz = draw(st.floats(-0.5, 0.5)) * a, draw(st.floats(-0.5, 0.5)) * a, draw(st.floats(-0.5, 0.5)) * b
+    # tilt factors mostly within half a box length (what LAMMPS itself prefers), now and then a strongly sheared cell
+    lim = 0.5 if draw(hperm.integers(0, 4)) else 0.95
+    xy, xz, yz = draw(st.floats(-lim, lim)) * a, draw(st.floats(-lim, lim)) * a, draw(st.floats(-lim, lim)) * b
     return [[a, 0, 0], [xy, b, 0], [xz, yz, c]]
 
 
